@@ -169,7 +169,7 @@ class temperature(PseudoNetCDFFile):
 
     def __surfmaps(self):
         for pos in self.__surfpos():
-            tmpmm = memmap(self.rffile.infile.name, '>f', 'r', pos,
+            tmpmm = memmap(self.rffile.infile, '>f', 'r', pos,
                            (self.area_count,))
             newshape = [len(self.dimensions['ROW']),
                         len(self.dimensions['COL'])]
@@ -187,7 +187,7 @@ class temperature(PseudoNetCDFFile):
     def __airmaps(self):
         for pos in self.__airpos():
             firstshape = ((self.cell_count + 4) * self.nlayers,)
-            tmpmm = memmap(self.rffile.infile.name, '>f', 'r', pos, firstshape)
+            tmpmm = memmap(self.rffile.infile, '>f', 'r', pos, firstshape)
             newshape1 = [self.nlayers, self.cell_count + 4]
             tmpmm = tmpmm.reshape(*newshape1)[:, 3:-1]
             newshape2 = [len(self.dimensions['LAY']),
